@@ -544,9 +544,7 @@ end
 
 def opParse (j : Json) : Json :=
   let txt := getStr j "text"
-  if txt.contains '\\' then Json.mkObj [("unmodelled", "backslash in the match part")]
-  else
-    match Match.lex txt.toList with
+  match Match.lex txt.toList with
     | none => Json.mkObj [("rejected", "lex")]
     | some ts =>
       match Match.parseToks ts with
